@@ -134,8 +134,8 @@ def run(pid, pc, tier, seed, replay):
         "class_tables_enumerated_exhaustively": stats.get("class_tables_enumerated", 0),
         "spec_verdicts_ok": res["spec_ok"],
         "inconclusive": res["inconclusive"],
-        "decided_by_compiler_theorem": res.get("decided_by_theorem", 0),
-        "inconclusive_and_not_decided_by_compiler_theorem": res.get("inconclusive_undecided", 0),
+        "decided_by_model_theorem": res.get("decided_by_theorem", 0),
+        "inconclusive_and_not_decided_by_model_theorem": res.get("inconclusive_undecided", 0),
         "notes_count": len(res.get("notes", [])),
         "notes_sample": sorted(set(res.get("notes", [])))[:5],
         "state_pairs_checked_by_closedCheck": res["pairs_total"],
